@@ -220,12 +220,6 @@ def _scaffold_reverse(repo, L, scf, srev):
             else:
                 why_b = f"loop body '{norm(lp.body[0]) if lp.body else ''}' does not store frag.reverse() at its own index"
     L.check(ok_b, "R4", srev.short + ":fragments", "rows[i] = frag.reverse() for every (i, frag) of idx_fragments()", why_b, srev.loc())
-    idxf = scf.methods.get("idx_fragments")
-    ok_c = False
-    if idxf is not None:
-        lps = [n for n in idxf.node.body if isinstance(n, ast.For)]
-        if len(lps) == 1 and norm(lps[0].iter) == "enumerate(self.rows)" and len(lps[0].body) == 1 and isinstance(lps[0].body[0], ast.If):
-            i_, r_ = (e.id for e in lps[0].target.elts)
-            iff = lps[0].body[0]
-            ok_c = norm(iff.test) == f"isinstance({r_}, Fragment)" and not iff.orelse and len(iff.body) == 1 and norm(iff.body[0]) == f"yield ({i_}, {r_})"
-    L.check(ok_c, "R4", "Scaffold.idx_fragments", "yields (index, row) for exactly the Fragment rows", "idx_fragments() no longer yields every Fragment row with its own index", idxf.loc() if idxf else "")
+    from .shared import check_row_iter
+
+    check_row_iter(repo, L, "R4", scf, "idx_fragments", "Fragment", "idx", "yields (index, row) for exactly the Fragment rows", "idx_fragments() no longer yields every Fragment row with its own index")
